@@ -113,11 +113,15 @@ def run(prop, grp, tier, obligations, undecided, failures, checker_cmds, ev_extr
         by_line, body_ranges, names = verus_gen.obligation_map(path)
         gen_lines = open(path).read().split("\n")
         clause_text = {}
-        for ln, nm in by_line.items():
-            clause_text[nm] = re.sub(r"\s*//@.*$", "", gen_lines[ln - 1]).strip().rstrip(",")[:400]
+        for ln, nm in sorted(by_line.items()):
+            # (a clause may be tagged on several lines, e.g. a postcondition and the loop invariant that carries it: show the first)
+            clause_text.setdefault(nm, re.sub(r"\s*//@.*$", "", gen_lines[ln - 1]).strip().rstrip(",")[:400])
         for (a, b, nm) in body_ranges:
             # first line of the region's item (signature / lemma header) as a hint of what is under contract
             hdr = next((l.strip() for l in gen_lines[a:b] if l.strip() and not l.strip().startswith("//")), "")
+            if hdr in ("{", ""):
+                hdr = next((gen_lines[i].strip() for i in range(a - 1, max(-1, a - 40), -1)
+                            if re.match(r"\s*(pub(\([a-z]+\))? )?(proof |exec |const )?fn ", gen_lines[i])), hdr)
             clause_text.setdefault(nm, ("body obligations of: " + hdr)[:400])
         fn_ranges = verus_gen.fn_ranges(path)
         want = grp.get("obligations")  # restrict to the obligations this property claims
